@@ -207,7 +207,7 @@ func (boundary) Describe() core.EngineInfo {
 		Real:       []string{"goatlang NewFunc adapters, call/callReady, mkFunc, newMethod, VM.Call/Func/Set/Get, constructors and accessors, slices.SortFunc native"},
 		Stubs:      []string{"host natives are the simulator's (they are the seam)", "SimDisk serves the script"},
 		Assumes:    []string{"an untyped constant passed to a native arrives as goatlang's untyped number: payload compared, type not", "scalars, nil and slices of scalars only", "natives that break their own declared result count are host bugs and are not injected"},
-		ProbesWant: []string{"form_1", "form_2", "form_3", "form_4", "form_5", "form_6", "ctx_stmt", "ctx_stmtret", "ctx_swstmt", "ctx_litret", "hostcall_tryseq", "ctx_assign", "ctx_expr", "ctx_nested", "ctx_fnvar", "ctx_loop", "ctx_viafn", "ctx_method", "ctx_objmethod", "ctx_reenter", "ctx_recurse", "ctx_sort", "hostcall_swap", "hostcall_variadic", "hostcall_reuse", "hostcall_redefine", "hostcall_consts", "hostcall_structs", "big_literal_arg", "round_2", "fault_propagated", "fault_handled", "hostcall_ok", "hostcall_too_many", "spread"},
+		ProbesWant: []string{"form_1", "form_2", "form_3", "form_4", "form_5", "form_6", "ctx_stmt", "ctx_stmtret", "ctx_swstmt", "ctx_litret", "hostcall_tryseq", "hostcall_ctors", "hostcall_shadow", "ctx_vardecl", "ctx_assign", "ctx_expr", "ctx_nested", "ctx_fnvar", "ctx_loop", "ctx_viafn", "ctx_method", "ctx_objmethod", "ctx_reenter", "ctx_recurse", "ctx_sort", "hostcall_swap", "hostcall_variadic", "hostcall_reuse", "hostcall_redefine", "hostcall_consts", "hostcall_structs", "big_literal_arg", "round_2", "fault_propagated", "fault_handled", "hostcall_ok", "hostcall_too_many", "spread"},
 	}
 }
 
@@ -331,6 +331,14 @@ func (e boundary) genPlan(r *core.PRNG) *BPlan {
 			p.Sites[idx].Want = r.Intn(n.Rets + 1)
 		case "expr", "nestedarg", "viafn", "method", "callback", "objmethod":
 			p.Sites[idx].Want = 1
+		case "vardecl":
+			// var a, b any = N(...): needs a native with at least two results
+			if n.Rets >= 2 {
+				p.Sites[idx].Want = n.Rets
+			} else {
+				p.Sites[idx].Ctx = "assign"
+				p.Sites[idx].Want = r.Intn(n.Rets + 1)
+			}
 		case "litret":
 			p.Sites[idx].Want = n.Rets
 		case "fnvar":
@@ -361,7 +369,7 @@ func (e boundary) genPlan(r *core.PRNG) *BPlan {
 	}
 	ns := 2 + r.Intn(10)
 	for i := 0; i < ns; i++ {
-		gen([]string{"stmt", "stmtret", "swstmt", "litret", "assign", "assign", "expr", "nested", "fnvar", "loop", "viafn", "method", "objmethod", "objmethod", "reenter", "recurse", "sort"}, 0)
+		gen([]string{"stmt", "stmtret", "swstmt", "litret", "vardecl", "assign", "assign", "expr", "nested", "fnvar", "loop", "viafn", "method", "objmethod", "objmethod", "reenter", "recurse", "sort"}, 0)
 	}
 	if r.Chance(1, 2) {
 		nf := 1 + r.Intn(2)
@@ -405,6 +413,12 @@ func (e boundary) genPlan(r *core.PRNG) *BPlan {
 		}
 		if r.Chance(1, 8) {
 			h = BHostCall{Fn: "tryseq", B: r.Intn(1 << 14)}
+		}
+		if r.Chance(1, 10) {
+			h = BHostCall{Fn: "ctors", Func: r.Bool()}
+		}
+		if r.Chance(1, 10) {
+			h = BHostCall{Fn: "shadow"}
 		}
 		np := h.A
 		if h.Fn == "redefine" {
@@ -526,6 +540,7 @@ func (p *BPlan) render() string {
 	}
 	// natives of the (value, err) shape: variables, a package variable and a struct field receive an
 	// error object at some calls and nil at others
+	ln("func shadowed() { println(7, \"x\"); print(\"y\"); println() }")
 	ln("var GE any")
 	ln("type EH struct { E any }")
 	ln("func tryseq() {")
@@ -610,6 +625,13 @@ func (p *BPlan) render() string {
 		case "stmtret":
 			ln("\tz%d := sr%d()", si, si)
 			ln("\thost.Obs(%d, z%d)", si, si)
+		case "vardecl":
+			var rs []string
+			for i := 0; i < s.Want; i++ {
+				rs = append(rs, fmt.Sprintf("d%d_%d", si, i))
+			}
+			ln(pre+"var %s any = %s", strings.Join(rs, ", "), p.callExpr(si, "", ""))
+			ln("\thost.Obs(%d, %s)", si, strings.Join(rs, ", "))
 		case "swstmt":
 			ln("\tz%d := ss%d(1)", si, si)
 			ln("\thost.Obs(%d, z%d)", si, si)
@@ -696,6 +718,7 @@ type bRun struct {
 	nativeVals map[int]goatlang.Value
 	handledNow bool // a nested error was handled during the current round
 	forms      map[string]bool
+	shadow     []string // calls received by the natives registered as main.println / main.print
 	tryMask    int // tryseq: bit i set = the i-th call of host.Try returns an error object
 	trySeen    int
 }
@@ -865,6 +888,17 @@ func (run *bRun) natives(vm *goatlang.VM) {
 		}
 		return bPool[i].value()
 	}))
+	for _, name := range []string{"println", "print"} {
+		name := name
+		vm.Set("main."+name, goatlang.NewFunc(1, 0, func(v *goatlang.VM, a []goatlang.Value, va ...goatlang.Value) []goatlang.Value {
+			parts := []string{name}
+			for _, x := range va {
+				parts = append(parts, describe(x))
+			}
+			run.shadow = append(run.shadow, strings.Join(parts, " "))
+			return nil
+		}))
+	}
 	vm.Set("host.Try", goatlang.NewFunc(1, 2, func(v *goatlang.VM, a []goatlang.Value) []goatlang.Value {
 		i := a[0].Int()
 		if run.tryMask>>uint(i)&1 == 1 {
@@ -986,7 +1020,7 @@ func (run *bRun) obs(site int, got []goatlang.Value) {
 		}
 	case "stmtret", "swstmt":
 		want = []BVal{{K: "int32", I: 12345}}
-	case "litret":
+	case "litret", "vardecl":
 		if s.Want <= len(rv) && s.Want > 0 {
 			want = rv[:s.Want]
 		}
@@ -1195,6 +1229,26 @@ func (run *bRun) hostCall(hc *BHostCall) {
 		run.hostStructs(hc)
 		return
 	}
+	if hc.Fn == "ctors" {
+		run.hostCtors(hc)
+		return
+	}
+	if hc.Fn == "shadow" {
+		// natives the host registered in package main under names that builtins also have: a bare
+		// call of that name in package main reaches the host's native, with the arguments passed
+		run.h.C.Inc("hostcall_shadow")
+		run.shadow = nil
+		out0 := len(run.h.Stdout.String())
+		if _, err := run.h.Call("main.shadowed", 0); err != nil {
+			run.fail("C19/count", "shadow-failed", "Call(main.shadowed) failed: %v", firstLine(err.Error()))
+			return
+		}
+		want := []string{"println 23:7 \"x\"", "print \"y\"", "println"}
+		if got := strings.Join(run.shadow, " | "); got != strings.Join(want, " | ") || len(run.h.Stdout.String()) != out0 {
+			run.fail("C19/args", "shadowed-builtin-name", "natives registered as main.println / main.print: the script called println(7, \"x\"); print(\"y\"); println() and the host's natives received [%s] (%d bytes went to stdout instead)", got, len(run.h.Stdout.String())-out0)
+		}
+		return
+	}
 	if hc.Fn == "tryseq" {
 		run.h.C.Inc("hostcall_tryseq")
 		run.tryMask, run.trySeen = hc.B, 0
@@ -1328,6 +1382,90 @@ var bConsts = []struct {
 	{"byte, float64, int, bool", "x := 9; return 200, 0.5, x, true", []BVal{{K: "uint8", I: 200}, {K: "float64", F: 0.5}, {K: "int32", I: 9}, {K: "bool", I: 1}}},
 	{"string, int8, int", "return \"a\", 100, 100000", []BVal{{K: "string", S: "a"}, {K: "int8", I: 100}, {K: "int32", I: 100000}}},
 	{"uint32, uint8, float64", "return 250, 250, 250", []BVal{{K: "uint32", I: 250}, {K: "uint8", I: 250}, {K: "float64", F: 250}}},
+}
+
+// hostCtors: every scalar constructor with the boundary values of its domain, read back through
+// every accessor that can hold the value, directly and after a trip through a script function.
+func (run *bRun) hostCtors(hc *BHostCall) {
+	run.h.C.Inc("hostcall_ctors")
+	type tc struct {
+		name string
+		v    goatlang.Value
+		t    goatlang.Type
+		f    float64
+	}
+	var cases []tc
+	for _, x := range []int{0, 1, -1, 41, math.MaxInt32, math.MinInt32} {
+		cases = append(cases, tc{fmt.Sprintf("Int(%d)", x), goatlang.Int(x), goatlang.TypeInt32, float64(x)}, tc{fmt.Sprintf("Int32(%d)", x), goatlang.Int32(int32(x)), goatlang.TypeInt32, float64(x)})
+	}
+	for _, x := range []uint{0, 1, math.MaxInt32, math.MaxInt32 + 1, 3000000000, math.MaxUint32} {
+		cases = append(cases, tc{fmt.Sprintf("Uint(%d)", x), goatlang.Uint(x), goatlang.TypeUint32, float64(x)}, tc{fmt.Sprintf("Uint32(%d)", x), goatlang.Uint32(uint32(x)), goatlang.TypeUint32, float64(x)})
+	}
+	for _, x := range []int8{-128, -1, 0, 127} {
+		cases = append(cases, tc{fmt.Sprintf("Int8(%d)", x), goatlang.Int8(x), goatlang.TypeInt8, float64(x)})
+	}
+	for _, x := range []byte{0, 1, 200, 255} {
+		cases = append(cases, tc{fmt.Sprintf("Byte(%d)", x), goatlang.Byte(x), goatlang.TypeUint8, float64(x)}, tc{fmt.Sprintf("Uint8(%d)", x), goatlang.Uint8(x), goatlang.TypeUint8, float64(x)})
+	}
+	check := func(c tc, v goatlang.Value, how string) bool {
+		ok := v.Type() == c.t && v.Float64() == c.f
+		if c.f >= math.MinInt32 && c.f <= math.MaxInt32 {
+			ok = ok && v.Int() == int(c.f) && v.Int32() == int32(c.f)
+		}
+		if c.f >= 0 {
+			ok = ok && v.Uint() == uint(c.f) && v.Uint32() == uint32(c.f)
+		}
+		if c.f >= -128 && c.f <= 127 {
+			ok = ok && v.Int8() == int8(c.f)
+		}
+		if c.f >= 0 && c.f <= 255 {
+			ok = ok && v.Byte() == byte(c.f) && v.Uint8() == uint8(c.f)
+		}
+		if !ok {
+			run.fail("C19/roundtrip", "constructor", "%s %s reads back as type %#x, Float64 %v, Int %d, Uint %d, Uint32 %d, Int8 %d, Byte %d; built from %v", c.name, how, int(v.Type()), v.Float64(), v.Int(), v.Uint(), v.Uint32(), v.Int8(), v.Byte(), c.f)
+		}
+		return ok
+	}
+	for _, c := range cases {
+		if !check(c, c.v, "") {
+			return
+		}
+		var rets []goatlang.Value
+		var err error
+		if hc.Func {
+			rets, err = run.h.Func(run.h.VM.Get("main.id1_1"), 1, c.v)
+		} else {
+			rets, err = run.h.Call("main.id1_1", 1, c.v)
+		}
+		if err != nil || len(rets) != 1 {
+			run.fail("C19/count", "ctors-call-failed", "id1_1(%s) failed: %v", c.name, err)
+			return
+		}
+		if !check(c, rets[0], "after a trip through the script function id1_1") {
+			return
+		}
+	}
+	for _, f := range []float64{0, math.Copysign(0, -1), 1.5, -2.25e10, math.MaxFloat64, math.SmallestNonzeroFloat64, math.Inf(-1)} {
+		if v := goatlang.Float64(f); v.Type() != goatlang.TypeFloat64 || math.Float64bits(v.Float64()) != math.Float64bits(f) {
+			run.fail("C19/roundtrip", "constructor", "Float64(%v) reads back as %v", f, v.Float64())
+			return
+		}
+	}
+	for _, b := range []bool{true, false} {
+		if v := goatlang.Bool(b); v.Type() != goatlang.TypeBool || v.Bool() != b {
+			run.fail("C19/roundtrip", "constructor", "Bool(%v) reads back as %v", b, v.Bool())
+			return
+		}
+	}
+	for _, st := range []string{"", "a", "h\u00e9llo", "\xff\xfe", "a\x00b"} {
+		if v := goatlang.String(st); v.Type() != goatlang.TypeString || v.String() != st {
+			run.fail("C19/roundtrip", "constructor", "String(%q) reads back as %q", st, v.String())
+			return
+		}
+	}
+	if !goatlang.Nil().IsNil() {
+		run.fail("C19/roundtrip", "constructor", "Nil().IsNil() is false")
+	}
 }
 
 // hostStructs: instances built with NewStruct (with and without initial data), written through
